@@ -297,7 +297,8 @@ def run_ops(case, ctx, m, r, plan, real):
             ctx.hit("struct_field")
             if kind == "wvf":
                 if ch.endswith("s"):
-                    v = "app%d" % (seed % 1000)
+                    v = ["app%d", "caf\u00e9%d", "\u00b5app%d", "a\u4e2d%d"][
+                        seed % 4] % (seed % 1000)
                     packed = struct.pack(fmt, v.encode())
                 else:
                     v = seed & ((1 << (8 * n)) - 1)
